@@ -385,6 +385,11 @@ Proof.
     + right. rewrite I2. reflexivity.
     + intro T. apply I5 in T. lia.
     + intro Hc. destruct (I10 Hc) as (_&_&?). lia.
+  - (* updateAddrs *)
+    destruct fresh; [|exact H]. destruct (Z.eqb_spec (ast b) 2) as [E2|E2]; [|exact H].
+    apply inv_emit_phase; auto; try (intros; lia); try (intros; discriminate).
+    + right. rewrite E2. reflexivity.
+    + intro Hc. destruct (I10 Hc) as (_&_&?). lia.
   - (* deliver *)
     destruct (q b) as [|s r] eqn:Hq; [exact H|].
     destruct (lbopen b) eqn:Ho.
@@ -448,8 +453,18 @@ Proof.
     cbn. apply teardown_ast.
   - destruct (Z.eqb_spec (phase b) 2) as [P|P]; [|contradiction]. left. split; [|auto].
     unfold set_phase, emit; cbn. rewrite H3. reflexivity.
+  - destruct fresh; [|contradiction]. rewrite H3 in Hn. cbn in Hn. contradiction.
   - destruct (q b); [contradiction|]. destruct (lbopen b); cbn in Hn; contradiction.
   - contradiction.
+Qed.
+
+(* an address update while the sub-channel is backing off (or IDLE, or SHUTDOWN) changes
+   nothing that is reported: the back-off is not cut short *)
+Theorem upd_addrs_not_connecting : forall b fresh, ast b = 3 \/ ast b = 0 \/ ast b = 4 ->
+  bstep b (BUpdAddrs fresh) = b.
+Proof.
+  intros b fresh H. cbn [bstep]. destruct fresh; [|reflexivity].
+  destruct (Z.eqb_spec (ast b) 2); [lia|reflexivity].
 Qed.
 
 Theorem shutdown_is_final : forall l o, let b := brun stB0 l in ast b = 4 -> ast (bstep b o) = 4.
@@ -463,6 +478,7 @@ Proof.
   - apply teardown_ast.
   - destruct (ccclosed b); [exact H4|]. cbn. apply teardown_ast.
   - rewrite P0. exact H4.
+  - destruct fresh; [|exact H4]. rewrite H4. cbn. exact H4.
   - destruct (q b); [exact H4|]. destruct (lbopen b); exact H4.
   - exact H4.
 Qed.
@@ -481,6 +497,7 @@ Proof.
   - rewrite teardown_ast in H2. lia.
   - destruct (ccclosed b); [contradiction|]. cbn in H2. rewrite teardown_ast in H2. lia.
   - destruct (phase b =? 2); [|contradiction]. unfold set_phase, emit in H2; cbn in H2. destruct (ast b =? 0) eqn:E; cbn in H2; [apply Z.eqb_eq in E|]; lia.
+  - destruct fresh; [|contradiction]. destruct (Z.eqb_spec (ast b) 2); [contradiction|]. contradiction.
   - destruct (q b); [contradiction|]. destruct (lbopen b); cbn in H2; contradiction.
   - contradiction.
 Qed.
@@ -699,14 +716,15 @@ Proof.
     split; [reflexivity|]. split; [reflexivity|]. split; intros; [discriminate|reflexivity].
   - destruct (phase b =? 2); [|exact Hid].
     replace (emit b 0) with (emit (set_tr b (tr b)) 0) by (destruct b; reflexivity). apply Hem.
+  - destruct fresh; [|exact Hid]. destruct (ast b =? 2); [apply Hem|exact Hid].
 Qed.
 
 Lemma decB_not_deliver : forall op, decB op <> BDeliver.
 Proof.
   intro op. unfold decB.
-  destruct op as [|k [|a1 [|a2 r]]]; try discriminate;
-    (destruct k as [|p|p]; try discriminate; destruct p as [p|p|]; try discriminate; destruct p as [p|p|]; try discriminate;
-     try (destruct p; discriminate)).
+  repeat match goal with
+         | |- context [match ?x with _ => _ end] => destruct x
+         end; discriminate.
 Qed.
 
 Lemma tf_exits_inv : forall b o, invB b -> ast b = 3 -> ast (bstep b o) <> 3 ->
@@ -724,8 +742,25 @@ Proof.
     cbn. apply teardown_ast.
   - destruct (Z.eqb_spec (phase b) 2) as [P|P]; [|contradiction]. left. split; [|auto].
     unfold set_phase, emit; cbn. rewrite H3. reflexivity.
+  - destruct fresh; [|contradiction]. rewrite H3 in Hn. cbn in Hn. contradiction.
   - destruct (q b); [contradiction|]. destruct (lbopen b); cbn in Hn; contradiction.
   - contradiction.
+Qed.
+
+Lemma shutdown_final_inv : forall b o, invB b -> ast b = 4 -> ast (bstep b o) = 4.
+Proof.
+  intros b o (I1&I2&I3&I4&I5&_) H4.
+  destruct (I4 H4) as [P0 T]. destruct o; cbn [bstep].
+  - rewrite H4. cbn. exact H4.
+  - rewrite P0. exact H4.
+  - rewrite T. exact H4.
+  - rewrite P0. exact H4.
+  - apply teardown_ast.
+  - destruct (ccclosed b); [exact H4|]. cbn. apply teardown_ast.
+  - rewrite P0. exact H4.
+  - destruct fresh; [|exact H4]. rewrite H4. cbn. exact H4.
+  - destruct (q b); [exact H4|]. destruct (lbopen b); exact H4.
+  - exact H4.
 Qed.
 
 Lemma skipn_app_len : forall (a b : list Z), skipn (length a) (a ++ b) = b.
@@ -750,6 +785,7 @@ Proof.
   - apply teardown_lbopen.
   - rewrite (Hc eq_refl). reflexivity.
   - destruct (phase b =? 2); [|reflexivity]. cbn. apply emit_lbopen.
+  - destruct fresh; [|reflexivity]. destruct (ast b =? 2); [|reflexivity]. cbn. rewrite emit_lbopen. reflexivity.
 Qed.
 
 Lemma stepB_facts : forall b op, invB b -> q b = [] -> let b0 := bstep b (decB op) in let b1 := stepB b op in
@@ -775,6 +811,15 @@ Proof.
   pose proof Hi as (I1&I2&I3&I4&I5&I6&I7&I8&I9&I10).
   pose proof Hi1 as (J1&J2&J3&J4&J5&J6&J7&J8&J9&J10).
   cbn [forallb snd]. rewrite andb_true_r.
+  (* nothing leaves SHUTDOWN *)
+  assert (H5 : (if (ast b =? 4) || mem 4 d then ast b1 =? 4 else true) = true).
+  { destruct (Z.eqb_spec (ast b) 4) as [E4|E4]; cbn [orb].
+    - apply Z.eqb_eq. rewrite Ha. apply shutdown_final_inv; assumption.
+    - destruct (mem 4 d) eqn:Hm; [|reflexivity]. apply Z.eqb_eq. rewrite Ha.
+      unfold d in Hm. destruct (lbopen b0); [|discriminate]. unfold newl in Hm.
+      destruct (ast b0 =? ast b); [discriminate|]. unfold mem in Hm. cbn [existsb] in Hm. rewrite orb_false_r in Hm.
+      apply Z.eqb_eq in Hm. symmetry. exact Hm. }
+  rewrite H5, andb_true_r.
   (* delivered so far is a chain *)
   assert (Hch : chain_ok (last (dl b) 0) d = true).
   { destruct J7 as [rest Hr]. rewrite Hr, Hd, chain_ok_split in J8. apply andb_prop in J8. destruct J8 as [J8 _].
